@@ -128,7 +128,7 @@ CLAIMED['C18'] = dict(
     design='4/C18')
 
 CLAIMED['C17'] = dict(
-    text='Samplers only. Proof over the real bodies of iround/ifloor (float, double), sample(nearest_neighbor_sampler) and sample(bilinear_sampler) for every '
+    text='Samplers, rounding, channel cast and matrix3x2 algebra (product, point transform, get_translate / get_scale, identity, inverse checked over the mathematical integers: transform(m1*m2,p) = transform(m2, transform(m1,p)), associativity, inverse(m)*m = identity; floating-point rounding of the matrix code is not modelled). Samplers only. Proof over the real bodies of iround/ifloor (float, double), sample(nearest_neighbor_sampler) and sample(bilinear_sampler) for every '
          'sample point |p| <= 10^6 and every view size up to 10^5 x 10^5 (incl. empty and 1-pixel-wide/high): a point reported outside leaves the result '
          'untouched; inside => 1, 2 or 4 source pixels are read, all INSIDE the source view, all among the pixels surrounding the point, every weight in '
          '[0,1]; at integer coordinates the total weight is exactly 1; nearest reads the nearest pixel; detail::cast_channel_fn reproduces an integral accumulator exactly and stays inside the hull of the surrounding values (float/double accumulators, signed and unsigned 8/16/32-bit channels).',
@@ -159,7 +159,7 @@ CLAIMED['C04'] = dict(
     design='4/C04')
 
 CLAIMED['C15'] = dict(
-    text='Partial (index and boundary bookkeeping). reverse_kernel / convolve_rows / convolve_cols: convolution is correlation with the reversed kernel (coefficients and centre) for every kernel. Loop-contract proof of detail::correlate_rows_impl for all five boundary options (one cell per option) and of '
+    text='detail::convolve_2d_impl under four nested loop contracts: every product entering dst(x,y) is src(x+cx-i, y+cy-j)*kernel(i,j), every kernel cell contributes exactly once when its sample lies inside the image (zero extension), every access in range. Partial (index and boundary bookkeeping). reverse_kernel / convolve_rows / convolve_cols: convolution is correlation with the reversed kernel (coefficients and centre) for every kernel. Loop-contract proof of detail::correlate_rows_impl for all five boundary options (one cell per option) and of '
          'kernel left_size/right_size: for EVERY output pixel (ghost coordinate), width >= 0 incl. narrower than the kernel, kernel size <= 4096, any centre: the '
          'pixel is written at most once; under extend_* it is correlated; under output_zero / output_ignore it is correlated exactly when its window fits inside the row, '
          'otherwise zeroed / left untouched; every buffer write, correlation window, source read and destination write is inside its range; a source row is read before any destination pixel of that row is written (in-place filtering as in detail::convolve_1d).',
@@ -169,7 +169,7 @@ CLAIMED['C15'] = dict(
     design='4/C15')
 
 CLAIMED['C11'] = dict(
-    text='Partial (GIL-owned decoders). Loop-contract proofs on the real bodies: the PNM text token loop keeps every write inside its 16-byte buffer for EVERY byte sequence '
+    text='Row buffers for bit-aligned pixels (row_buffer_helper constructor, bmp scanline reader 4-bit buffer): the bit-field load of every pixel stays inside the buffer (a one-byte heap over-read on valid 4-bit BMPs was found and fixed in /repo). Partial (GIL-owned decoders). Loop-contract proofs on the real bodies: the PNM text token loop keeps every write inside its 16-byte buffer for EVERY byte sequence '
          'the device can deliver and terminates (variant: bytes remaining); the BMP RLE4/RLE8 state machine (read_palette_image_rle: command loop + four pixel loops), '
          'copy_row_if_needed and read_palette keep every row-buffer write, palette read, iterator step and row copy (source and destination view) in bounds for every '
          'byte sequence and terminate in the bytes remaining; both devices\' read(T(&)[N]) return normally only when all N elements arrived; BMP read_header (no undefined arithmetic on header fields), the 15/16-bit colour-mask set-up and pixel decode of reader and scanline reader (every shift count in range for every BI_BITFIELDS mask triple), count_ones / trailing_zeros against popcount / ctz; the TARGA RLE decoding loop (read_rle_data) keeps every run and raw chunk inside the image buffer, computes its size without overflow (integer-theory lemma) and terminates; the BMP row pitch (reader '
